@@ -129,6 +129,64 @@ def catalogue(rng, tier='quick'):
     return out
 
 
+def pair_catalogue(rng, tier='quick'):
+    """two instances of ONE library class in one hierarchy, each individually legal: the second configuration is the first with ONE width or
+    option changed (sometimes an independent draw), so that module names produced by structureName() collide whenever the name forgets that
+    parameter.  A module shared by name must be interchangeable, whichever instance the generator meets first.
+    yields (label, ins, outs, body) like catalogue()."""
+    py4hw = quiet_import(); P = py4hw
+    pool = [1, 3, 4, 8]
+    out = []
+    def draw(spec):
+        return {k: (rng.choice(v)) for k, v in spec.items()}
+    def mutate(spec, cfg, legal):
+        for _ in range(20):
+            c = dict(cfg); k = rng.choice(sorted(spec)); alt = [x for x in spec[k] if x != cfg[k]]
+            if not alt: continue
+            c[k] = rng.choice(alt)
+            if legal(c): return c
+        return cfg
+    def pair(label, spec, legal, ports, build):
+        c1 = None
+        for _ in range(50):
+            c1 = draw(spec)
+            if legal(c1): break
+        c2 = mutate(spec, c1, legal) if rng.random() < .8 else next(c for c in iter(lambda: draw(spec), None) if legal(c))
+        cfgs = [(1, c1), (2, c2)]
+        if rng.random() < .5: cfgs.reverse()                       # which one the generator meets first matters
+        ins, outs = [], []
+        for k, c in sorted(cfgs):
+            pi, po = ports(k, c); ins += pi; outs += po
+        def body(t, i, o, cfgs=cfgs):
+            for k, c in cfgs: build(t, i, o, k, c)
+        out.append(('Pair_' + label, ins, outs, body))
+    T = True
+    reps = 3 if tier == 'quick' else 10
+    for _ in range(reps):
+        pair('Add', {'wa': pool, 'wb': pool, 'wr': pool}, lambda c: c['wr'] >= c['wa'],            # AddCarryIn asserts width(r) >= width(a)
+             lambda k, c: ([('a%d' % k, c['wa']), ('b%d' % k, c['wb'])], [('r%d' % k, c['wr'])]),
+             lambda t, i, o, k, c: P.Add(t, 'add%d' % k, i['a%d' % k], i['b%d' % k], o['r%d' % k]))
+        pair('AddCiCo', {'wa': pool, 'wb': pool, 'wr': pool, 'ci': [False, T], 'co': [False, T]}, lambda c: c['wr'] >= c['wa'],
+             lambda k, c: ([('a%d' % k, c['wa']), ('b%d' % k, c['wb'])] + ([('ci%d' % k, 1)] if c['ci'] else []), [('r%d' % k, c['wr'])] + ([('co%d' % k, 1)] if c['co'] else [])),
+             lambda t, i, o, k, c: P.Add(t, 'add%d' % k, i['a%d' % k], i['b%d' % k], o['r%d' % k], ci=i.get('ci%d' % k), co=o.get('co%d' % k)))
+        pair('Reg', {'wd': pool, 'wq': pool, 'e': [0, 1, 2], 'r': [False, T], 'rv': [None, 0, 1, 5]}, lambda c: T,
+             lambda k, c: ([('d%d' % k, c['wd'])] + ([('e%d' % k, c['e'])] if c['e'] else []) + ([('r%d' % k, 1)] if c['r'] else []), [('q%d' % k, c['wq'])]),
+             lambda t, i, o, k, c: P.Reg(t, 'reg%d' % k, i['d%d' % k], o['q%d' % k], enable=i.get('e%d' % k), reset=i.get('r%d' % k), reset_value=c['rv']))
+        pair('Neg', {'wa': pool, 'wr': pool}, lambda c: T,
+             lambda k, c: ([('a%d' % k, c['wa'])], [('r%d' % k, c['wr'])]),
+             lambda t, i, o, k, c: P.Neg(t, 'neg%d' % k, i['a%d' % k], o['r%d' % k]))
+        pair('Abs', {'wa': [3, 4, 8], 'wr': [3, 4, 8], 'inv': [False, T]}, lambda c: T,
+             lambda k, c: ([('a%d' % k, c['wa'])], [('r%d' % k, c['wr'])] + ([('inv%d' % k, 1)] if c['inv'] else [])),
+             lambda t, i, o, k, c: P.Abs(t, 'abs%d' % k, i['a%d' % k], o['r%d' % k], inverted=o.get('inv%d' % k)))
+        pair('Sign', {'wa': pool}, lambda c: T,
+             lambda k, c: ([('a%d' % k, c['wa'])], [('r%d' % k, 1)]),
+             lambda t, i, o, k, c: P.Sign(t, 'sign%d' % k, i['a%d' % k], o['r%d' % k]))
+        pair('BufEnable', {'wa': pool}, lambda c: T,
+             lambda k, c: ([('a%d' % k, c['wa']), ('e%d' % k, 1)], [('r%d' % k, c['wa'])]),
+             lambda t, i, o, k, c: P.BufEnable(t, 'be%d' % k, i['a%d' % k], i['e%d' % k], o['r%d' % k]))
+    return out
+
+
 def random_top(rng, n_blocks=8):
     """a random netlist (py/designs.py) inside a top-level Logic with ports"""
     import designs
